@@ -15,4 +15,23 @@ theorem met_fields_table :
 /-- C10: both sweeps (4 store sites) write a requested level at its own position -/
 theorem level_store_table : levelStorePattern = ["by-position"] ∧ levelStoreSites = 4 := by decide
 
+/-- C20: the step sequence of `get_source_area` is the modelled one: flatten, argsort descending,
+gather, cumulative sum, shift by one (exclusive prefix sum), scatter back through the same order into
+an array of the SUMS' dtype, reshape -/
+theorem source_area_steps_table :
+    sourceAreaSteps = ["f_flat = f.ravel()", "g_flat = g.ravel()", "order = np.argsort(g_flat)[::-1]",
+      "f_sorted = f_flat[order]", "M_cum = np.cumsum(f_sorted)", "M_shifted = np.zeros_like(M_cum)",
+      "M_shifted[1:] = M_cum[:-1]", "g_rescaled = np.empty_like(g_flat, dtype=M_shifted.dtype)",
+      "g_rescaled[order] = M_shifted", "return g_rescaled.reshape(g.shape)"] := by decide
+
+/-- C20: the step sequence of `extract_percentile_contour` -/
+theorem percentile_steps_table :
+    percentileSteps = ["flx, grid = _maybe_slice_level(flx, grid, level)", "X, Y, _ = grid",
+      "dx = np.abs(X[0, 1] - X[0, 0]) if X.ndim == 2 else np.abs(X[1] - X[0])",
+      "dy = np.abs(Y[1, 0] - Y[0, 0]) if Y.ndim == 2 else np.abs(Y[1] - Y[0])", "cell_area = dx * dy",
+      "flat = flx.ravel()", "idx = np.argsort(flat)[::-1]", "sorted_vals = flat[idx]",
+      "cumsum = np.cumsum(sorted_vals) * cell_area", "total = cumsum[-1]", "target = pct * total",
+      "k = np.searchsorted(cumsum, target)", "level = sorted_vals[min(k, len(sorted_vals) - 1)]",
+      "area = (k + 1) * cell_area", "return (float(level), float(area))"] := by decide
+
 end BLDFM.Bridge
